@@ -171,6 +171,8 @@ def base_cfg(rng=None, tag=""):
         user("judy", ["s1"], None, acct=True, groups=[g0, g2, group("g4", auth(pw("g4")), acct=True)]),
         dict(user("kate", ["s1"], auth(pw("kate")), acct=True), acctk="syslog"),                       # syslog accounter
         user("liam", ["s1"], auth(pw("liam")), groups=[dict(group("g5", None, acct=True), acctk="syslog"), g1]),   # inherited syslog accounter
+        dict(user("mona", ["s1"], auth(pw("mona")), acct=True), acctk="stderr"),                    # accounter of a type nobody registered
+        user("nick", ["s1"], auth(pw("nick")), groups=[dict(group("g6", None, acct=True), acctk="stderr"), g1]),  # ... inherited
     ]
     return {"secrets": [secret("s1", "key-of-scope-one", ["10.1.0.0/16", "2001:db8:1::/48"]),
                         secret("s2", "key-of-scope-two", ["10.2.0.0/16"])],
